@@ -1,13 +1,14 @@
 #!/usr/bin/env python3
 """keep_benign.py <dir>...: copies property-preserving variants (patches, the
 sub-agent's meta.json, our eval.json / cross.json) into /verif/benign/<Cxx>/
-and prints a summary table (latest result per patch and check)."""
+and prints a summary table (latest result per patch and check).
+BENIGN_SUFFIX=-r2 keeps a later round beside the first."""
 import glob, json, os, shutil, sys
 rows = []
 for src in sys.argv[1:]:
     meta = json.load(open(os.path.join(src, 'meta.json')))
     prop = meta['property']
-    dst = os.path.join('/verif/benign', prop)
+    dst = os.path.join('/verif/benign', prop + os.environ.get('BENIGN_SUFFIX', ''))
     os.makedirs(dst, exist_ok=True)
     for f in glob.glob(os.path.join(src, 'patch*.diff')) + [os.path.join(src, n) for n in ('meta.json', 'eval.json', 'cross.json')]:
         if os.path.exists(f):
